@@ -270,17 +270,24 @@ def handleExpireAt (_c : Ctx) (cmd : List Bytes) : Prog Res :=
       | some t => expireTail key cmd t (ex.headD false)
   | _ => .ret (.err wrongArgs)
 
-/-- common body of INCR/DECR/INCRBY/DECRBY (:393-:647): read, parse, add, store as decimal text -/
+def overflowErr : Bytes := b "increment or decrement would overflow"
+
+/-- common body of INCR/DECR/INCRBY/DECRBY (:393-:647): read, parse, add, store as decimal text. A result
+    outside the int64 range is refused before anything is stored (repaired in /repo by a `fix:` commit;
+    before it the sum wrapped around). `absent` is the value a missing key gets (DECRBY of the smallest
+    int64 has none inside the range), `f` the arithmetic on a stored integer. -/
 def incrCore (key : Bytes) (absent : Int) (f : Int → Int) : Prog Res :=
   .call (.getValues [key]) fun (vs : List Val) =>
-  let store (n : Int) : Prog Res := setOrErr [(key, .str (fmtInt n))] (.ret (.ok (intReply n)))
+  let store (n : Int) : Prog Res :=
+    if n < minInt64 || n > maxInt64 then .ret (.err overflowErr)
+    else setOrErr [(key, .str (fmtInt n))] (.ret (.ok (intReply n)))
   match vs.headD .nil with
   | .nil => store absent
   | .str s =>
     match parseInt64 s with
     | none => .ret (.err (b "value is not an integer or out of range"))
-    | some cur => store (wrap64 (f cur))
-  | .int cur => store (wrap64 (f cur))
+    | some cur => store (f cur)
+  | .int cur => store (f cur)
   | _ => .ret (.err (b "unexpected type for currentValue"))
 
 def handleIncr (_c : Ctx) (cmd : List Bytes) : Prog Res :=
@@ -306,7 +313,7 @@ def handleDecrBy (_c : Ctx) (cmd : List Bytes) : Prog Res :=
   | [_, key, n] =>
     match parseInt64 n with
     | none => .ret (.err (b "decrement value is not an integer or out of range"))
-    | some n => incrCore key (wrap64 (n * -1)) (· - n)
+    | some n => incrCore key (n * -1) (· - n)
   | _ => .ret (.err wrongArgs)
 
 /-- :539 handleIncrByFloat -/
@@ -337,7 +344,10 @@ def handleIncrByFloat (_c : Ctx) (cmd : List Bytes) : Prog Res :=
       | _ => .ret (.err (b "unexpected type for currentValue"))
   | _ => .ret (.err wrongArgs)
 
-/-- :649 handleRename -/
+/-- :649 handleRename. The value moves with its own deadline (repaired in /repo by a `fix:` commit; before it
+    SetValues' "an overwritten entry keeps its deadline" gave the moved value the destination's deadline and
+    the source's was dropped): both deadlines are read, the value is written, and SetExpiry is issued on the
+    destination exactly when the deadline SetValues left there differs from the source's. -/
 def handleRename (_c : Ctx) (cmd : List Bytes) : Prog Res :=
   match cmd with
   | [_, oldKey, newKey] =>
@@ -345,7 +355,11 @@ def handleRename (_c : Ctx) (cmd : List Bytes) : Prog Res :=
     match vs.headD .nil with
     | .nil => .ret (.err (b "no such key"))
     | v => if oldKey == newKey then .ret (.ok okReply) else
-           setOrErr [(newKey, v)] (.call (.deleteKey oldKey) fun _ => .ret (.ok okReply))
+           .call (.getExpiry oldKey) fun (e : Option Int) =>
+           .call (.getExpiry newKey) fun (eNew : Option Int) =>
+           setOrErr [(newKey, v)] <|
+             let fin : Prog Res := .call (.deleteKey oldKey) fun _ => .ret (.ok okReply)
+             if e != eNew then .call (.setExpiry newKey e false) fun _ => fin else fin
   | _ => .ret (.err wrongArgs)
 
 /-- :678 handleFlush (FLUSHALL / FLUSHDB) -/
